@@ -395,8 +395,8 @@ void ep3_mul_sim_dig(ep3_t r, const ep3_t p[], const dig_t k[], size_t len) {
 
 	ep3_null(t);
 
-	max = util_bits_dig(k[0]);
-	for (size_t i = 1; i < len; i++) {
+	max = 0;
+	for (size_t i = 0; i < len; i++) {
 		max = RLC_MAX(max, util_bits_dig(k[i]));
 	}
 
